@@ -267,9 +267,16 @@ class LoopParser(SubParser):
         code_gen.if_else(marker)
         code_gen.push(360)
         code_gen.if_end(marker)
+        code_gen.add_instruction(OpCode.POP, LoopVar.INCR)
+
+        # With zero iterations there is nothing to spread; don't divide.
+        code_gen.test_op(Operator.NOTEQ, LoopVar.COUNTER, 0)
+        marker = code_gen.if_true_start()
+        code_gen.push(LoopVar.INCR)
         code_gen.push(LoopVar.COUNTER)
         code_gen.add_instruction(OpCode.OP, Operator.DIV)
         code_gen.add_instruction(OpCode.POP, LoopVar.INCR)
+        code_gen.if_end(marker)
         return True
 
     def _loop_test(self, code_gen) -> bool:
